@@ -663,6 +663,10 @@ size_t SCPI_ResultArbitraryBlockHeader(scpi_t * context, size_t len) {
     context->arbitrary_remaining = len;
     result  = writeDelimiter(context);
     result += writeData(context, block_header, header_len + 2);
+    if (len == 0) {
+        /* empty block is complete, no data will follow */
+        context->output_count++;
+    }
     return result;
 }
 
